@@ -132,7 +132,7 @@ PROPS = {
         level_note='NaN is excluded (no order is claimed); cross-type order and list-length order are only checked through the laws; arithmetic runs use values whose float arithmetic is exact. Infinite ranges are not generated.',
         technique='law-based (algebraic) runtime monitor with harness-side run finder, AddressSanitizer/UBSan',
         stages=[dict(harness='c16', variant='asan', quick=4000, thorough=200000,
-                     need=['pairs', 'pairs.tied', 'triples', 'compressed_variants', 'pairs.compressed_variants', 'pairs.reference_order', 'iterated_values', 'avmessages', 'pairs.with_tolerance'])],
+                     need=['pairs', 'pairs.tied', 'triples', 'compressed_variants', 'pairs.compressed_variants', 'pairs.reference_order', 'iterated_values', 'avmessages', 'pairs.with_tolerance', 'runs.inexact_float_step'])],
         rule='case = pool of 9 lists: 81 ordered pairs (x compressed variants), 729 triples; every 5th case = all pairs of 8 same-type single values. '
              'distinct = hash of the rendered pool; every case is non-trivial.',
         exhaustive=dict(quick=False, thorough=False),
